@@ -704,9 +704,11 @@ def payload_case(a, b, tag):
     ta, tb = V.to_coq(a), V.to_coq(b)
     expr = ("(let d := mk_delta_json hatom_deep (tbl_udiff %s) (tbl_ops %s) %s (tbl_conv %s) %s %s in "
             "let k := keys_path_okb %s && keys_path_okb %s in "
-            "SL [sx_bool k; sx_bool (implb k (delta_okb d && wfp (pv_of_delta d)))])") % (
-        D.coq_udiff_table(D.udiff_table(a, b)), ops, D.coq_cfg(False, 0.33, True), conv, ta, tb, ta, tb)
-    return (expr, [keys_path_ok_py(a, b), True], dict(tag, hypothesis="keys_path_okb -> delta_okb && wfp"))
+            "SL [sx_bool k; sx_bool (implb k (delta_okb d && wfp (pv_of_delta d))); "
+            "sx_bool (forallb (fun r : path * list opcode => ops_ok2 0 0 (snd r)) %s)])") % (
+        D.coq_udiff_table(D.udiff_table(a, b)), ops, D.coq_cfg(False, 0.33, True), conv, ta, tb, ta, tb, ops)
+    return (expr, [keys_path_ok_py(a, b), True, True],
+            dict(tag, hypothesis="keys_path_okb (= Python guard); keys_path_okb -> delta_okb && wfp (theorem, recomputed); ops_sorted2 on the recorded difflib opcodes"))
 
 
 # ---- the direct oracle: the property statement on the implementation, no reference to the model ----
@@ -1122,8 +1124,8 @@ def run(ctx):
     ctx.coq_cases("c20_json_guards", GUARD_HEADER, gcases, shard=150, label="json_guardsb on the generated documents")
     pcases = [g for r in results for g in r.get("payload_cases", [])]
     from harness import deltacommon as DC
-    ctx.coq_cases("c20_payload_guards", DC.HDR + "\nFrom DD Require Import Delta.DeltaChain Pickle.Codec Pickle.DeltaCodec Cli.JsonDocs Cli.JsonPickle.",
-                  pcases, shard=100, label="keys_path_okb -> delta_okb && wfp on the generated documents")
+    ctx.coq_cases("c20_payload_guards", DC.HDR + "\nFrom DD Require Import Delta.DeltaChain Pickle.Codec Pickle.DeltaCodec Diff.DiffPaths Cli.JsonDocs Cli.JsonPickle.",
+                  pcases, shard=100, label="keys_path_okb / payload conditions / ops_sorted2 on the generated documents")
     alias_witness(ctx)
     collect(ctx, [rd], "c20_save_direct")
     ctx.note("fault_points", ["%s/%s" % p for p in POINTS])
